@@ -83,6 +83,10 @@ enum class WebSocketState
 class WebSocketClient final : public std::enable_shared_from_this<WebSocketClient>
 {
 public:
+  /// Largest frame payload / reassembled message the client accepts (the same
+  /// default as WebSocketServer::_maxFrameSize).
+  static constexpr std::size_t kMaxFrameSize = 16 * 1024 * 1024;
+
   using TextCallback = std::function<void(const std::string&)>;
   using BinaryCallback = std::function<void(const std::vector<std::uint8_t>&)>;
   using ConnectCallback = std::function<void(const std::string& subprotocol)>;
@@ -825,6 +829,19 @@ private:
       handleFrame(*frame);
     }
 
+    // More unparsed bytes than the largest acceptable frame (payload of
+    // kMaxFrameSize plus a 14-byte header) can occupy: the header at the front
+    // declares a frame that will never be accepted (too long, or a malformed
+    // control frame that parse() keeps reporting as incomplete). Fail the
+    // connection instead of buffering whatever the peer goes on sending.
+    if (localBuffer.size() - offset > kMaxFrameSize + 14)
+    {
+      sendClose(1009, "Message Too Big");
+      setState(WebSocketState::CLOSED);
+      if (_onError) _onError("Frame exceeded maximum size");
+      return;
+    }
+
     // Step 4: Put unconsumed remainder back under lock
     if (offset < localBuffer.size())
     {
@@ -898,6 +915,7 @@ private:
     WsOpcode opcode = WsOpcode::CONTINUATION;
     std::vector<std::uint8_t> payload;
     bool deliver = false;
+    bool tooLarge = false;
     {
       std::lock_guard<std::mutex> lock(_dataMutex);
       if (isStart)
@@ -911,7 +929,15 @@ private:
                                frame.payload.begin(), frame.payload.end());
       }
 
-      if (frame.fin)
+      if (_fragmentBuffer.size() > kMaxFrameSize)
+      {
+        // Reassembled message too large: drop what was accumulated (otherwise
+        // never-final fragments grow the buffer without bound) and fail below.
+        std::vector<std::uint8_t>().swap(_fragmentBuffer);
+        _fragmentOpcode = WsOpcode::CONTINUATION;
+        tooLarge = true;
+      }
+      else if (frame.fin)
       {
         opcode = _fragmentOpcode;
         payload = std::move(_fragmentBuffer);
@@ -919,6 +945,13 @@ private:
         _fragmentOpcode = WsOpcode::CONTINUATION;
         deliver = true;
       }
+    }
+
+    if (tooLarge)
+    {
+      sendClose(1009, "Message Too Big");
+      if (_onError) _onError("Message exceeded maximum size");
+      return;
     }
 
     if (deliver)
